@@ -389,6 +389,43 @@ def g8(led, rid, ctx):
               "of the formula is dropped and a model that violates it is printed")
 
 
+def g10(led, rid, ctx):
+    """the byte parser recognises blanks only through the ASCII whitespace class (no case on a single
+    blank byte other than the line feed); a proof file is created truncating"""
+    p = ctx.bin
+    n = 0
+    for f in p.fns.values():
+        if "/parsers/dimacs.rs" not in f.file or "/tests" in f.file or "::tests::" in f.defn:
+            continue
+        for b in f.blocks:
+            t = b["term"]
+            if t["t"] != "switch" or t.get("ty") != "u8":
+                continue
+            n += 1
+            vals = {v for v, _ in t["targets"]}
+            blanks = sorted(vals & {9, 11, 12, 13, 32})
+            led.check(not blanks, rid, "%s:no-single-blank-case@%d" % (f.name, b["line"]), "%s:%d" % (f.file, b["line"]),
+                      "blank bytes handled by is_ascii_whitespace",
+                      "%s matches the byte value(s) %s literally: the other ASCII blanks (e.g. the carriage "
+                      "return of a CRLF file) are no longer separators in that state, so the same formula "
+                      "parses or fails depending on its layout" % (f.name, blanks))
+    led.floor(rid, "byte switches in the DIMACS parser", n, 3)
+    lib = ctx.lib
+    m = 0
+    for f in lib.fns.values():
+        if "/proof/" not in f.file or "/tests" in f.file:
+            continue
+        opens = [c for c in f.calls if c.name == "open" and "OpenOptions" in (c.self_ty or c.target_def or "")]
+        creates = [c for c in f.calls if c.name == "create" and "File" in (c.self_ty or c.target_def or "")]
+        m += len(opens) + len(creates)
+        for c in opens:
+            trunc = any(x.name in ("truncate", "create_new") for x in f.calls)
+            led.check(trunc, rid, "%s:proof-file-truncated" % f.name, c.span, "truncate(true) / File::create",
+                      "%s opens the proof file without truncating it: clauses of an earlier, longer proof stay "
+                      "behind the new one and the file does not end in the empty clause" % f.name)
+    led.floor(rid, "proof file creations", m, 1)
+
+
 def run(ctx, led):
     run_rule(led, "G1", "DRAT literal sign TABLE (6 rows) and terminating 0", g1, ctx)
     run_rule(led, "G2", "the sink maps every literal, negates exactly the negative codes, forwards all "
@@ -408,3 +445,6 @@ def run(ctx, led):
     def _g9(led_, rid_, ctx_):
         _C10.t_guards(led_, rid_, ctx_, _C10.explore(ctx_.lib))
     run_rule(led, "G9", "ENTRY-GUARD of add_clause: a clause that follows a root conflict is rejected, not processed (shared with C10-T11)", _g9, ctx)
+    run_rule(led, "G10", "blanks only through the whitespace class in the byte parser; proof files are created truncating", g10, ctx)
+    from . import C07 as _C07
+    run_rule(led, "G11", "a learned clause is deleted only if it is not the reason of a trail entry (shared with C07-J1)", _C07.j1, ctx)
